@@ -574,6 +574,16 @@ theorem obj_meta_carried {K C : Type} [Zero K] [Add K] [Sub K] [Mul K] [Neg K] [
     (P.backward S wf).wavelength = wf.wavelength ∧ (P.backward S wf).stokes = wf.stokes :=
   ⟨rfl, rfl, rfl, rfl⟩
 
+/-- **Tensor components are transformed independently** (`multiplex_for_tensor_fields`): component `t` of the result of the
+executed `forward`/`backward` depends only on component `t` of the input and on the wavelength — at every scalar type, for
+every kind of focal grid and plan. -/
+theorem obj_componentwise {K C : Type} [Zero K] [Add K] [Sub K] [Mul K] [Neg K] [Div K] [One K] [NatCast K] [IntCast K]
+    [Zero C] [One C] [Add C] [Mul C] [Inv C] [NatCast C] (S : Scalars K C) (P : LensProp K) (wf wf' : Wf σ K C) (t : σ)
+    (h : wf.field t = wf'.field t) (hl : wf.wavelength = wf'.wavelength) :
+    (P.forward S wf).field t = (P.forward S wf').field t ∧ (P.backward S wf).field t = (P.backward S wf').field t := by
+  unfold LensProp.forward LensProp.backward
+  simp only [h, hl, and_self]
+
 /-- **`forward` of the object is the scaled Fourier integral for every tensor component** (scalar, Jones vector, Jones
 matrix: `σ` arbitrary), every wavelength, wavelength-dependent focal length, whatever sound plan the instance holds. -/
 theorem obj_forward_eq_integral (py px Fy Fx : RegAxis) (f : ℝ → ℝ) (plan : ℝ → Plan) (emu : Bool)
